@@ -41,6 +41,7 @@ Cfg == [style: Styles, recv: BOOLEAN, reverse: BOOLEAN, srcPtr: BOOLEAN, dstPtr:
         clash: {"none", "srcIsDst", "srcIsErr", "srcBlank", "argIsDst", "resIsSrc"},
                                  \* how the user's own names meet the names the tool gives by default: the source parameter is
                                  \* called dst / err / _, the first additional argument dst, the result src
+        dstErr: BOOLEAN,         \* the destination type has a method Error() string: it is the destination all the same, not an error result
         twin: BOOLEAN]           \* another converter interface of the file has a method of the SAME name with the SAME receiver
                                  \* name on ANOTHER source type: two methods of two types - the header of this one is what it is
 
@@ -81,6 +82,7 @@ NoRecv == P("", "")
 \* plain one are explored with the parameter names left to the tool
 Init == cfg \in {c \in Cfg : (c.imp = "none" => c.pkg = "ext") /\ (c.pkg # "ext" => ~c.named /\ ~c.namedRes)
                        /\ (c.recvBlank => c.recv /\ ~c.reverse /\ c.nargs = 0 /\ ~c.named /\ ~c.namedRes /\ c.imp = "none")
+                       /\ (c.dstErr => c.imp \in {"none", "src"} /\ ~c.named /\ ~c.namedRes /\ c.nargs <= 1 /\ c.clash = "none" /\ ~c.twin /\ ~c.recvBlank)
                        /\ (c.clash # "none" => c.imp = "none" /\ ~c.recvBlank /\ ~c.twin /\ c.nargs <= 1)
                        /\ (c.clash \in {"srcIsDst", "srcIsErr", "srcBlank"} => c.named /\ ~c.recv)
                        /\ (c.clash = "srcIsErr" => ~(c.namedRes /\ c.retErr))   \* (err *S) (to *D, err error) is no valid method declaration
